@@ -74,6 +74,26 @@ fn main() {
                 std::process::exit(1);
             }
         },
+        "analyze" => {
+            // analysis layer only (no template engine): used under Miri, where constructing Tera costs minutes
+            let dir = args[2].clone();
+            let r = panic::catch_unwind(move || {
+                let mut a = tauri_typegen::analysis::CommandAnalyzer::new();
+                let cmds = a.analyze_project(&dir).map_err(|e| e.to_string())?;
+                Ok::<(usize, usize, usize), String>((cmds.len(), a.get_discovered_structs().len(), a.get_discovered_events().len()))
+            });
+            match r {
+                Ok(Ok((c, s, e))) => println!("RESULT ok commands={} structs={} events={}", c, s, e),
+                Ok(Err(e)) => {
+                    println!("RESULT err {}", e.replace('\n', " "));
+                    std::process::exit(1);
+                }
+                Err(_) => {
+                    println!("RESULT panic");
+                    std::process::exit(101);
+                }
+            }
+        }
         "c20" => c20::main(&args[2..]),
         _ => {
             eprintln!("usage: vdriver gen|build|save-tauri|load-tauri|from-file|c20 ...");
